@@ -1,6 +1,6 @@
 #!/bin/bash
 # Runs every registered quick check on the current tree (regenerates all evidence files).
-cd /verif
+cd "$(dirname "$0")/.."
 FAIL=0
 for P in $(python3 -c "
 import sys; sys.path.insert(0,'tools')
